@@ -7,7 +7,7 @@ Extraction "../model_driver/model.ml"
   Dag.empty Dag.add_node Dag.remove_node Dag.add_edge Dag.remove_edge Dag.remove_outgoing
   Dag.contains_node Dag.contains_edge Dag.contains_transitive_edge Dag.get_outgoing_edges Dag.get_incoming_edges
   Dag.descendants_unsorted Dag.descendants Dag.topo_cmp Dag.live Dag.get_info Dag.rank_of
-  Build.init_world Build.new_session Dsl.dsl_run_step Dsl.dsl_run_msession Dsl.denote_table Build.is_tn Build.un
+  Build.init_world Build.new_session Dsl.dsl_run_step Dsl.dsl_run_msession Dsl.dsl_run_zsession Dsl.denote_table Build.is_tn Build.un
   Tracker.et_run Tracker.is_build_start Tracker.is_build_end Tracker.is_execute Tracker.match_require_start Tracker.match_require_end
   Tracker.match_read_start Tracker.match_read_end Tracker.match_write_start Tracker.match_write_end Tracker.is_execute_of
   Tracker.match_execute_start Tracker.match_execute_end Tracker.first_require Tracker.first_read Tracker.first_write Tracker.first_execute
